@@ -77,7 +77,8 @@ impl Default for Cfg {
             probe_qq_dotted: 40,
             probe_qq_keyword: 3,
             probe_temp_capture: 3,
-            probe_begin_define: 3,
+            // repaired in /repo
+            probe_begin_define: 6,
             probe_qq_vector_derived: 3,
         }
     }
@@ -1889,7 +1890,7 @@ impl<'a, 'b> Gen<'a, 'b> {
             };
         }
         if self.c.chance(self.cfg.probe_begin_define.saturating_mul(20)) {
-            self.features.insert("kf-toplevel-begin-define");
+            self.features.insert("toplevel-begin-define");
             let name = format!("g{}", self.next_global);
             self.next_global += 1;
             let e = self.gen(&Ty::Int, 1);
@@ -1912,13 +1913,6 @@ pub fn gen_session(bytes: &[u8], cfg: &Cfg) -> Session {
 pub fn kf_features(forms: &[Sx]) -> Vec<&'static str> {
     let mut out = BTreeSet::new();
     for f in forms {
-        if f.head_is("begin") {
-            if let Some(l) = f.as_list() {
-                if l.iter().skip(1).any(|x| x.head_is("define")) {
-                    out.insert("toplevel-begin-define");
-                }
-            }
-        }
         scan(f, false, &mut out);
         // variables named like the prelude's macro temporaries
         let mut binds_temp = false;
